@@ -386,6 +386,8 @@ theorem Fin.run_log : ∀ f : Fin, f.closureFree = true → (Fin.run f).1 = Fin.
   | .leaf _ _, _ => rfl
   | .sub fs, h => by simp [Fin.run, Fin.ids, Fin.loop_log fs (by simpa [Fin.closureFree] using h)]
   | .closure _, h => by simp [Fin.closureFree] at h
+  | .deferred body rel, h => by
+    simp [Fin.run, Fin.ids, Fin.run_log body (by simpa [Fin.closureFree] using h)]
 theorem Fin.loop_log : ∀ fs : List Fin, Fin.closureFreeL fs = true → (Fin.loop fs).1 = Fin.idsL fs
   | [], _ => rfl
   | f :: fs, h => by
@@ -404,6 +406,8 @@ theorem Fin.run_leaves : ∀ f : Fin, f.closureFree = true → ((Fin.run f).2.ma
     | nil => rw [h] at this; simpa [TErr.leavesL] using this
     | cons e es => rw [h] at this; simpa [TErr.leaves] using this
   | .closure _, h => by simp [Fin.closureFree] at h
+  | .deferred body rel, h => by
+    simpa [Fin.run, Fin.panics] using Fin.run_leaves body (by simpa [Fin.closureFree] using h)
 theorem Fin.loop_leaves : ∀ fs : List Fin, Fin.closureFreeL fs = true → TErr.leavesL (Fin.loop fs).2 = Fin.panicsL fs
   | [], _ => rfl
   | f :: fs, h => by
@@ -427,6 +431,9 @@ theorem Fin.run_none : ∀ f : Fin, Fin.panics f = [] → (Fin.run f).2 = none
   | .closure fs => by
     intro h
     simpa [Fin.run] using Fin.seq_none fs (by simpa [Fin.panics] using h)
+  | .deferred body rel => by
+    intro h
+    simpa [Fin.run] using Fin.run_none body (by simpa [Fin.panics] using h)
 theorem Fin.loop_nil : ∀ fs : List Fin, Fin.panicsL fs = [] → (Fin.loop fs).2 = []
   | [] => fun _ => rfl
   | f :: fs => by
@@ -451,6 +458,9 @@ theorem Fin.run_log_quiet : ∀ f : Fin, Fin.panics f = [] → (Fin.run f).1 = F
   | .closure fs => by
     intro h
     simp [Fin.run, Fin.ids, Fin.seq_log_quiet fs (by simpa [Fin.panics] using h)]
+  | .deferred body rel => by
+    intro h
+    simp [Fin.run, Fin.ids, Fin.run_log_quiet body (by simpa [Fin.panics] using h)]
 theorem Fin.loop_log_quiet : ∀ fs : List Fin, Fin.panicsL fs = [] → (Fin.loop fs).1 = Fin.idsL fs
   | [] => fun _ => rfl
   | f :: fs => by
@@ -534,19 +544,21 @@ theorem Fin.assign_ids (pan : Nat → Option Err) : ∀ f : Fin, Fin.ids (Fin.as
   | .leaf _ _ => rfl
   | .sub fs => by simp [Fin.assign, Fin.ids, Fin.assignL_ids pan fs]
   | .closure fs => by simp [Fin.assign, Fin.ids, Fin.assignL_ids pan fs]
+  | .deferred body rel => by simp [Fin.assign, Fin.ids, Fin.assign_ids pan body]
 theorem Fin.assignL_ids (pan : Nat → Option Err) : ∀ fs : List Fin, Fin.idsL (Fin.assignL pan fs) = Fin.idsL fs
   | [] => rfl
   | f :: fs => by simp [Fin.assignL, Fin.idsL, Fin.assign_ids pan f, Fin.assignL_ids pan fs]
 end
 
 mutual
-theorem Fin.assign_panics (pan : Nat → Option Err) : ∀ f : Fin, Fin.panics (Fin.assign pan f) = (Fin.ids f).filterMap pan
-  | .leaf id _ => by cases h : pan id <;> simp [Fin.assign, Fin.panics, Fin.ids, h]
-  | .sub fs => by simp [Fin.assign, Fin.panics, Fin.ids, Fin.assignL_panics pan fs]
-  | .closure fs => by simp [Fin.assign, Fin.panics, Fin.ids, Fin.assignL_panics pan fs]
-theorem Fin.assignL_panics (pan : Nat → Option Err) : ∀ fs : List Fin, Fin.panicsL (Fin.assignL pan fs) = (Fin.idsL fs).filterMap pan
+theorem Fin.assign_panics (pan : Nat → Option Err) : ∀ f : Fin, Fin.panics (Fin.assign pan f) = (Fin.uids f).filterMap pan
+  | .leaf id _ => by cases h : pan id <;> simp [Fin.assign, Fin.panics, Fin.uids, h]
+  | .sub fs => by simp [Fin.assign, Fin.panics, Fin.uids, Fin.assignL_panics pan fs]
+  | .closure fs => by simp [Fin.assign, Fin.panics, Fin.uids, Fin.assignL_panics pan fs]
+  | .deferred body rel => by simp [Fin.assign, Fin.panics, Fin.uids, Fin.assign_panics pan body]
+theorem Fin.assignL_panics (pan : Nat → Option Err) : ∀ fs : List Fin, Fin.panicsL (Fin.assignL pan fs) = (Fin.uidsL fs).filterMap pan
   | [] => rfl
-  | f :: fs => by simp [Fin.assignL, Fin.panicsL, Fin.idsL, Fin.assign_panics pan f, Fin.assignL_panics pan fs, List.filterMap_append]
+  | f :: fs => by simp [Fin.assignL, Fin.panicsL, Fin.uidsL, Fin.assign_panics pan f, Fin.assignL_panics pan fs, List.filterMap_append]
 end
 
 mutual
@@ -554,6 +566,7 @@ theorem Fin.assign_closureFree (pan : Nat → Option Err) : ∀ f : Fin, (Fin.as
   | .leaf _ _ => rfl
   | .sub fs => by simp [Fin.assign, Fin.closureFree, Fin.assignL_closureFree pan fs]
   | .closure _ => rfl
+  | .deferred body rel => by simp [Fin.assign, Fin.closureFree, Fin.assign_closureFree pan body]
 theorem Fin.assignL_closureFree (pan : Nat → Option Err) : ∀ fs : List Fin, Fin.closureFreeL (Fin.assignL pan fs) = Fin.closureFreeL fs
   | [] => rfl
   | f :: fs => by simp [Fin.assignL, Fin.closureFreeL, Fin.assign_closureFree pan f, Fin.assignL_closureFree pan fs]
@@ -562,16 +575,23 @@ end
 /-- **… for every subset of panicking teardowns** (`pan` chooses who panics and with what) -/
 theorem unsubscribe_assign (fs : List Fin) (hc : Fin.closureFreeL fs = true) (pan : Nat → Option Err) :
     normalize (unsubscribe (Fin.assignL pan fs)) =
-      (Fin.idsL fs, if (Fin.idsL fs).filterMap pan = [] then none else some ((Fin.idsL fs).filterMap pan)) := by
+      (Fin.idsL fs, if (Fin.uidsL fs).filterMap pan = [] then none else some ((Fin.uidsL fs).filterMap pan)) := by
   rw [unsubscribe_normal _ (by rw [Fin.assignL_closureFree]; exact hc), Fin.assignL_ids, Fin.assignL_panics]
 
-/-- **Witness (pinned tree: `detachOn` operator_utility.go:647-650, `ThrowOnContextCancel`
-    operator_context.go:295-298).** A teardown written as `func() { sub.Unsubscribe(); release() }`
-    skips `release` (here: 90) when a teardown below `sub` (here: 1) panics. -/
+/-- What the `closureFree` hypothesis excludes (before fix 694a874: `detachOn`,
+    `ThrowOnContextCancel`; today no modelled set-up): a teardown written as
+    `func() { sub.Unsubscribe(); release() }` skips `release` (here: 90) when a teardown below `sub`
+    (here: 1) panics. -/
 theorem closure_skips_witness :
     (unsubscribe [.closure [.sub [.sub [.leaf 1 (some (.user 5))]], .leaf 90 none]]).1 = [1] ∧
     (unsubscribe [.sub [.sub [.sub [.leaf 1 (some (.user 5))]], .leaf 90 none]]).1 = [1, 90] := by
   constructor <;> rfl
+
+/-- … whereas `func() { defer release(); sub.Unsubscribe() }` (fix 694a874) runs it, and the
+    panic still reaches the caller, wrapped once more by the enclosing loop -/
+theorem deferred_runs_release :
+    normalize (unsubscribe [.deferred (.sub [.sub [.leaf 1 (some (.user 5))]]) [90]]) = ([1, 90], some [.user 5]) := by
+  decide
 
 /-- the single loop of subscription.go:133-149 over user teardowns: every one runs, in order; the
     panics are wrapped one by one, joined, and raised after the loop -/
